@@ -6,9 +6,9 @@ HOOKS = {
     "add_only": True,
 }
 ENGINES = [
-    {"name": "coq-model", "path": "/verif/coq", "serves_properties": ["C01", "C12", "C13", "C14", "C20"],
+    {"name": "coq-model", "path": "/verif/coq", "serves_properties": ["C01", "C07", "C08", "C12", "C13", "C14", "C20"],
      "kind_free_text": "hand-written Gallina model (Model/), proofs (Proofs/), property theorems (Props/), Coq 8.16.1"},
-    {"name": "correspondence", "path": "/verif/harness", "serves_properties": ["C01", "C12", "C13", "C14", "C20"],
+    {"name": "correspondence", "path": "/verif/harness", "serves_properties": ["C01", "C07", "C08", "C12", "C13", "C14", "C20"],
      "kind_free_text": "Go harness driving /repo (built with -tags verif) + extracted OCaml model and oracle (ocaml/) on the same cases"},
 ]
 NOTES = ("Every check: rebuild Coq closure of Props/<id>.v, parse Print Assumptions, build harness against /repo's working tree, "
@@ -71,6 +71,31 @@ CHECKS = [
         "exactly in rationals and drops (and counts) rounding ties. BSON/JSON marshalling libraries are exercised, not modelled.",
         "Coq proof (order statistics over the cumulative scan, ring invariant) + differential correspondence",
         "DESIGN.md section 8 C13"),
+    chk("C07",
+        "Coq theorems (Props/C07.v) for the five compressing collector kinds, every chunk size and EVERY operation history (Add, unreadable Add, "
+        "Resolve, Reset, Flush, SetMetadata, Info; any mix of schemas the collector can tell apart): C07_log — after every operation "
+        "decoded(writer) ++ decoded(Resolve) = the accepted-and-not-discarded samples once each in order, Info's sample count = accepted and not yet "
+        "flushed, every chunk <= its capacity (the executable statement c07_run is proved true for all histories); C07_rejected_add — a rejected "
+        "Add leaves the decoded contents unchanged and the state literally unchanged (except the streaming collector's flush-before-add on "
+        "unreadable input); C07_resolve_readonly; C07_reset_fresh — after Reset every continuation behaves as on a fresh collector (with the "
+        "metadata the code keeps). Correspondence: all histories of length <= 3/5 over 8 operation symbols + random long ones, observed after "
+        "every operation; the same c07_step oracle is applied to the implementation's observations.",
+        "Trusted: as C01. 'only the last chunk of a schema run may hold fewer' is proved as exact chunk sizes for the schema-aware kinds on pure Add "
+        "sequences (C08_dynamic), for general histories only the upper bound is proved. Documents the collector cannot tell apart (same metric count "
+        "and types, for schema-aware kinds same key paths) are assumed to have one schema.",
+        "Coq proof (invariant over collector state and writer log for all kinds, induction over histories) + differential correspondence",
+        "DESIGN.md section 8 C07"),
+    chk("C08",
+        "Coq theorems (Props/C08.v): C08_dynamic — for the dynamic and streaming-dynamic collectors and EVERY document sequence (arbitrary schema "
+        "changes, returning to earlier schemas; no type-only change) every Add is accepted, the output decodes to exactly the inputs and the chunk "
+        "sizes are exactly change points U capacity points; C08_no_mixing — in every reachable state of every kind every chunk holds only samples "
+        "with the metric count and types of its reference document; C08_add_same_types / C08_add_refused — a differing document is refused with an "
+        "error and the state unchanged; C08_dyn_count_refuted documents that the dynamic collector compares key paths only. Correspondence and "
+        "c08_ok oracle on exhaustive short and random schema sequences.",
+        "Trusted: as C01; FNV-64 hash collisions are outside the model (signatures compared as strings). The pre-repair behaviour of both "
+        "schema-aware collectors (D9, D10) is detected by the oracle (see DESIGN.md section 7).",
+        "Coq proof (induction over document sequences, run-length/capacity arithmetic) + differential correspondence",
+        "DESIGN.md section 8 C08"),
     chk("C12",
         "Seven Coq theorems (Props/C12.v) over the Gallina model of hdrhist: for every configuration (0<=lo, 1<=hi<2^62, 1<=s<=5) and every "
         "0<=v<=hi the value is accepted, lies in its reported equivalence range, the range is no wider than max(unit, v*10^-s) and is exactly "
